@@ -343,7 +343,9 @@ def compare(pin, pout, acc, witness, label):
         a, b = pin.ctype(p), pout.ctype(p)
         if a != b:
             bad(classify_ctype(pin, p), "%s content type %r -> %r" % (p, a, b))
-        if not opcx.same_payload(pin.blob(p), pout.blob(p)):
+        # (blank-tolerant equivalence only for the Office vocabularies, whose containers are element-only; the content type is
+        # the INPUT's, not what the tree under test makes of it)
+        if not opcx.same_payload(pin.blob(p), pout.blob(p), strict=not (a or "").startswith(("application/vnd.openxmlformats", "application/vnd.ms-"))):
             kind = "xml" if opcx.canonical(pin.blob(p)) is not None else "binary"
             bad("payload-changed:%s" % kind, "%s payload differs (%d -> %d bytes)" % (p, len(pin.blob(p)), len(pout.blob(p))))
     for src in ["/"] + [p for p in reach if pout.has_part(p)]:
